@@ -382,3 +382,206 @@ def _trace_real_contract(mask, reflective):
 for _m in ('', 'x', 'y'):
     for _r in (False, True):
         _trace_real_contract(_m, _r)
+
+
+# ------------------------------------------------------------------------------------------
+# Newton-Raphson geometries (even asphere, xy polynomial, Chebyshev): the geometry side of the abstract contract used by
+# _trace_real above -- the reported normal is the unit normal of the *prescribed sag*, pointing to -z, and the reported
+# distance ends on the prescribed sag.
+# ------------------------------------------------------------------------------------------
+EA = 'optiland/geometries/even_asphere.py'
+PG = 'optiland/geometries/polynomial.py'
+CG = 'optiland/geometries/chebyshev.py'
+NRG = 'optiland/geometries/newton_raphson.py'
+
+
+def _normal_clauses(c, tag, geo, x, y, tol=2e-6):
+    rays = mk_rays(c, (x, y, 0.0), (0.0, 0.0, 1.0))
+    before = c.snapshot(rays=rays)
+    n = tuple(c.val(v) for v in geo.surface_normal(rays))
+    zx = c.derivative(lambda t: geo.sag(c.arr(t), c.arr(y)), x)
+    zy = c.derivative(lambda t: geo.sag(c.arr(x), c.arr(t)), y)
+    c.ensure_eq('C02.%s.normal.unit' % tag, norm2(n), 1)
+    # n is parallel to (dz/dx, dz/dy, -1):  n_x = -n_z dz/dx, n_y = -n_z dz/dy, and n_z < 0
+    c.ensure_eq('C02.%s.normal.x_component_follows_sag_slope' % tag, n[0] + n[2] * zx, 0, tol=tol)
+    c.ensure_eq('C02.%s.normal.y_component_follows_sag_slope' % tag, n[1] + n[2] * zy, 0, tol=tol)
+    c.ensure('C02.%s.normal.points_to_minus_z' % tag, n[2] < 0)
+    c.ensure_frame('C02.%s.normal.pure' % tag, before, c.snapshot(rays=rays), [])
+
+
+@contract('C02.EvenAsphere.surface_normal', [EA + ':EvenAsphere._surface_normal', EA + ':EvenAsphere.sag', NRG + ':NewtonRaphsonGeometry.surface_normal'],
+          ['C02'], bundle=True, max_paths=64)
+def ea_normal(c):
+    geos = c.mod('optiland.geometries')
+    CoordinateSystem = c.mod('optiland.coordinate_system').CoordinateSystem
+    R = c.real('R', -50, 50, nonzero=True)
+    k = c.real('k', -3, 2)
+    co = [c.real('C%d' % i, -1e-3, 1e-3) for i in range(3)]
+    g = geos.EvenAsphere(CoordinateSystem(), R, k, 1e-10, 100, co)
+    x, y = c.real('x', -3, 3), c.real('y', -3, 3)
+    c.require(1 - (1 + k) * (x * x + y * y) / (R * R) > 0)
+    _normal_clauses(c, 'even_asphere', g, x, y)
+
+
+@contract('C02.PolynomialGeometry.surface_normal', [PG + ':PolynomialGeometry._surface_normal', PG + ':PolynomialGeometry.sag',
+                                                    NRG + ':NewtonRaphsonGeometry.surface_normal'], ['C02'], bundle=True, max_paths=64)
+def poly_normal(c):
+    geos = c.mod('optiland.geometries')
+    CoordinateSystem = c.mod('optiland.coordinate_system').CoordinateSystem
+    R = c.real('R', -50, 50, nonzero=True)
+    k = c.real('k', -3, 2)
+    co = [[c.real('p%d%d' % (i, j), -1e-3, 1e-3) for j in range(3)] for i in range(3)]
+    g = geos.PolynomialGeometry(CoordinateSystem(), R, k, 1e-10, 100, c.np.array(co))
+    x, y = c.real('x', -3, 3), c.real('y', -3, 3)
+    c.require(1 - (1 + k) * (x * x + y * y) / (R * R) > 0)
+    _normal_clauses(c, 'polynomial', g, x, y)
+
+
+KNOWN = {
+    'C02.chebyshev.normal.x_component_follows_sag_slope': {'finding': 'C02-chebyshev-normal-misses-normalisation-factor', 'role': 'full'},
+    'C02.chebyshev.normal.y_component_follows_sag_slope': {'finding': 'C02-chebyshev-normal-misses-normalisation-factor', 'role': 'full'},
+    'C02.chebyshev.normal.pin_polynomial_slope_is_not_divided_by_norm_x': {'finding': 'C02-chebyshev-normal-misses-normalisation-factor', 'role': 'pin'},
+    'C02.chebyshev.normal.pin_polynomial_slope_is_not_divided_by_norm_y': {'finding': 'C02-chebyshev-normal-misses-normalisation-factor', 'role': 'pin'},
+}
+
+
+def _cheb(c, unit_norm):
+    geos = c.mod('optiland.geometries')
+    CoordinateSystem = c.mod('optiland.coordinate_system').CoordinateSystem
+    R = c.real('R', -50, 50, nonzero=True)
+    k = c.real('k', -3, 2)
+    co = [[c.real('q%d%d' % (i, j), -1e-3, 1e-3) for j in range(3)] for i in range(3)]
+    if unit_norm:
+        nx_, ny_ = 1.0, 1.0
+        x, y = c.real('x', -0.9, 0.9), c.real('y', -0.9, 0.9)
+    else:
+        nx_, ny_ = c.real('norm_x', 4, 20, positive=True), c.real('norm_y', 4, 20, positive=True)
+        x, y = c.real('x', -3, 3), c.real('y', -3, 3)
+    g = geos.ChebyshevPolynomialGeometry(CoordinateSystem(), R, k, 1e-10, 100, c.np.array(co), nx_, ny_)
+    g0 = geos.ChebyshevPolynomialGeometry(CoordinateSystem(), R, k, 1e-10, 100, c.np.zeros((3, 3)), nx_, ny_)
+    c.require(1 - (1 + k) * (x * x + y * y) / (R * R) > 0)
+    return g, g0, x, y, nx_, ny_
+
+
+@contract('C02.ChebyshevPolynomialGeometry.surface_normal.unit_normalisation',
+          [CG + ':ChebyshevPolynomialGeometry._surface_normal', CG + ':ChebyshevPolynomialGeometry.sag',
+           CG + ':ChebyshevPolynomialGeometry._chebyshev', CG + ':ChebyshevPolynomialGeometry._chebyshev_derivative'],
+          ['C02'], bundle=True, numeric_only=True)
+def cheb_normal_unit(c):
+    """bounded (the Chebyshev terms go through arccos, which the symbolic model leaves uninterpreted); norm_x = norm_y = 1:
+    the residual of the known finding -- with unit normalisation the reported normal is the normal of the sag"""
+    g, g0, x, y, _, _ = _cheb(c, True)
+    _normal_clauses(c, 'chebyshev.unit_normalisation', g, x, y)
+
+
+@contract('C02.ChebyshevPolynomialGeometry.surface_normal', [CG + ':ChebyshevPolynomialGeometry._surface_normal', CG + ':ChebyshevPolynomialGeometry.sag',
+                                                             CG + ':ChebyshevPolynomialGeometry._chebyshev', CG + ':ChebyshevPolynomialGeometry._chebyshev_derivative'],
+          ['C02'], bundle=True, numeric_only=True)
+def cheb_normal(c):
+    """bounded.  KNOWN FINDING: d/dx T_i(x/norm_x) = T_i'(x/norm_x)/norm_x, the code omits the 1/norm_x (1/norm_y)"""
+    g, g0, x, y, nx_, ny_ = _cheb(c, False)
+    _normal_clauses(c, 'chebyshev', g, x, y)
+    rays = mk_rays(c, (x, y, 0.0), (0.0, 0.0, 1.0))
+    n = tuple(c.val(v) for v in g.surface_normal(rays))
+    zx = c.derivative(lambda t: g.sag(c.arr(t), c.arr(y)), x)
+    zy = c.derivative(lambda t: g.sag(c.arr(x), c.arr(t)), y)
+    zx0 = c.derivative(lambda t: g0.sag(c.arr(t), c.arr(y)), x)
+    zy0 = c.derivative(lambda t: g0.sag(c.arr(x), c.arr(t)), y)
+    # pin: what the code reports instead -- the conic slope plus norm_x (norm_y) times the polynomial slope
+    c.ensure_eq('C02.chebyshev.normal.pin_polynomial_slope_is_not_divided_by_norm_x', n[0] + n[2] * (zx0 + nx_ * (zx - zx0)), 0, tol=2e-6)
+    c.ensure_eq('C02.chebyshev.normal.pin_polynomial_slope_is_not_divided_by_norm_y', n[1] + n[2] * (zy0 + ny_ * (zy - zy0)), 0, tol=2e-6)
+
+
+def _nr_distance(kind):
+    files = {'even_asphere': EA + ':EvenAsphere.sag', 'polynomial': PG + ':PolynomialGeometry.sag', 'chebyshev': CG + ':ChebyshevPolynomialGeometry.sag'}
+
+    @contract('C02.NewtonRaphsonGeometry.distance.' + kind, [NRG + ':NewtonRaphsonGeometry.distance', NRG + ':NewtonRaphsonGeometry._intersection_sphere',
+                                                             files[kind]], ['C02'], bundle=True, numeric_only=True)
+    def nrd(c):
+        """bounded: the Newton iteration is run on the real code; its end point must lie on the prescribed sag, on the ray,
+        ahead of the ray's start.  (Convergence of the iteration for all inputs is not decided by any contract here.)"""
+        geos = c.mod('optiland.geometries')
+        CoordinateSystem = c.mod('optiland.coordinate_system').CoordinateSystem
+        R = c.real('R', -60, 60, nonzero=True)
+        c.require(abs(R) >= 15)
+        k = c.real('k', -2, 1)
+        if kind == 'even_asphere':
+            g = geos.EvenAsphere(CoordinateSystem(), R, k, 1e-10, 100, [c.real('C%d' % i, -1e-4 / 10 ** i, 1e-4 / 10 ** i) for i in range(3)])
+        elif kind == 'polynomial':
+            g = geos.PolynomialGeometry(CoordinateSystem(), R, k, 1e-10, 100,
+                                        c.np.array([[c.real('p%d%d' % (i, j), -1e-4, 1e-4) for j in range(3)] for i in range(3)]))
+        else:
+            g = geos.ChebyshevPolynomialGeometry(CoordinateSystem(), R, k, 1e-10, 100,
+                                                 c.np.array([[c.real('q%d%d' % (i, j), -1e-3, 1e-3) for j in range(3)] for i in range(3)]), 10.0, 10.0)
+        p = (c.real('px', -3, 3), c.real('py', -3, 3), c.real('pz', -8, -1))
+        d = c.unit3('L', 'M', 'N', cone=0.93)
+        rays = mk_rays(c, p, d)
+        before = c.snapshot(rays=rays)
+        t = c.val(g.distance(rays))
+        c.ensure('C02.nr.distance.finite_for_rays_that_meet_the_vertex_region', c.isfinite(t))
+        hit = tuple(p[i] + t * d[i] for i in range(3))
+        z = c.val(g.sag(c.arr(hit[0]), c.arr(hit[1])))
+        c.ensure_eq('C02.nr.distance.end_point_on_prescribed_sag', hit[2], z, tol=1e-8)
+        c.ensure('C02.nr.distance.forward', t >= 0)
+        c.ensure_frame('C02.nr.distance.pure', before, c.snapshot(rays=rays), [])
+    return nrd
+
+
+for _kind in ('even_asphere', 'polynomial', 'chebyshev'):
+    _nr_distance(_kind)
+
+
+# ------------------------------------------------------------------------------------------
+# the sequential loop: every surface from `skip` on is asked to trace the *same* bundle, in prescription order, after all
+# records were reset; the per-surface accessors stack the per-surface records in that order.  (The loop is a Python `for`
+# over a list slice: the statement for every list length is the language's loop semantics, checked here for lengths 1..5.)
+# ------------------------------------------------------------------------------------------
+SGF = 'optiland/surfaces/surface_group.py'
+
+
+@contract('C02.SurfaceGroup.trace.sequential', [SGF + ':SurfaceGroup.trace', SGF + ':SurfaceGroup.reset', SGF + ':SurfaceGroup.x', SGF + ':SurfaceGroup.y',
+                                                SGF + ':SurfaceGroup.z', SGF + ':SurfaceGroup.L', SGF + ':SurfaceGroup.M', SGF + ':SurfaceGroup.N',
+                                                SGF + ':SurfaceGroup.opd', SGF + ':SurfaceGroup.intensity'], ['C02', 'C13'], bundle=True)
+def group_trace(c):
+    SurfaceGroup = c.mod('optiland.surfaces.surface_group').SurfaceGroup
+    log = []
+
+    class Spy:
+        def __init__(self, j):
+            self.j = j
+            self.reset()
+
+        def reset(self):
+            log.append(('reset', self.j))
+            for a in ('x', 'y', 'z', 'L', 'M', 'N', 'opd', 'intensity', 'u'):
+                setattr(self, a, c.np.empty(0))
+
+        def trace(self, rays):
+            log.append(('trace', self.j, rays))
+            # what a surface does: moves the bundle and records it
+            rays.x = rays.x + self.j + 1
+            for a, b in (('x', 'x'), ('y', 'y'), ('z', 'z'), ('L', 'L'), ('M', 'M'), ('N', 'N'), ('opd', 'opd'), ('intensity', 'i')):
+                setattr(self, a, getattr(rays, b) * 1)
+            return rays
+    x0 = c.real('x0', -1, 1)
+    for n in range(1, 6):
+        for skip in range(0, n + 1):
+            del log[:]
+            sg = SurfaceGroup([Spy(j) for j in range(n)])
+            del log[:]
+            rays = mk_rays(c, (x0, c.real('y0', -1, 1), 0.0), (0.0, 0.0, 1.0))
+            out = sg.trace(rays, skip) if skip else sg.trace(rays)
+            c.ensure('C02.group.trace.returns_the_same_bundle', c.same(out, rays))
+            c.ensure('C02.group.trace.every_record_reset_first', [e[:2] for e in log[:n]] == [('reset', j) for j in range(n)])
+            c.ensure('C02.group.trace.surfaces_in_prescription_order_from_skip', [e[1] for e in log[n:]] == list(range(skip, n))
+                     and all(e[0] == 'trace' for e in log[n:]))
+            c.ensure('C02.group.trace.one_bundle_object_all_the_way', all(c.same(e[2], rays) for e in log[n:]))
+            # accessor rows = per-surface records in order (surfaces that recorded nothing contribute no row)
+            xs = sg.x
+            c.ensure('C02.group.accessor_rows_are_surface_records_in_order', xs.shape[0] == n - skip)
+            acc = x0
+            for r, j in enumerate(range(skip, n)):
+                acc = acc + j + 1
+                c.ensure_eq('C02.group.accessor_rows_are_surface_records_in_order', c.val(xs[r]), acc)
+            for a in ('y', 'z', 'L', 'M', 'N', 'opd', 'intensity'):
+                c.ensure('C02.group.accessor_rows_are_surface_records_in_order', getattr(sg, a).shape[0] == n - skip)
